@@ -722,6 +722,24 @@ m('skiplist-update-entry-reader-gap', ['C04', 'C17'], 'lib/storage/index/skip_li
 	slidx.updateMtx.Lock()
 	slidx.insertEntryInner(newKey, newRID, txn, true)
 	slidx.updateMtx.Unlock()""", ['C17-R2 [SkipListIndex.UpdateEntry:container-under-updateMtx]'])
+m('applydelete-image-after-compaction', ['C02', 'C03', 'C15'], TP, '\tif logManager.IsEnabledLogging() {\n\t\t// We need to copy out the deleted tuple1 for undo purposes.\n\t\tvar deleteTuple = new(tuple.Tuple)\n\t\tdeleteTuple.SetSize(tupleSize)\n\t\tdeleteTuple.SetData(make([]byte, deleteTuple.Size()))\n\t\tcopy(deleteTuple.Data(), tp.Data()[tupleOffset:tupleOffset+deleteTuple.Size()])\n\t\tdeleteTuple.SetRID(rid)\n\n\t\tlogRecord := recovery.NewLogRecordInsertDelete(txn.GetTransactionID(), txn.GetPrevLSN(), recovery.APPLYDELETE, *rid, deleteTuple)\n\t\tlsn := logManager.AppendLogRecord(logRecord)\n\t\ttp.SetLSN(lsn)\n\t\ttxn.SetPrevLSN(lsn)\n\t}\n\n\tfreeSpacePointer := tp.GetFreeSpacePointer()\n\tcommon.SHAssert(tupleOffset >= freeSpacePointer, "Free space appears before tuples.")\n\tcopy(tp.Data()[freeSpacePointer+tupleSize:], tp.Data()[freeSpacePointer:tupleOffset])\n', '\tfreeSpacePointer := tp.GetFreeSpacePointer()\n\tcommon.SHAssert(tupleOffset >= freeSpacePointer, "Free space appears before tuples.")\n\tcopy(tp.Data()[freeSpacePointer+tupleSize:], tp.Data()[freeSpacePointer:tupleOffset])\n\tif logManager.IsEnabledLogging() {\n\t\t// We need to copy out the deleted tuple1 for undo purposes.\n\t\tvar deleteTuple = new(tuple.Tuple)\n\t\tdeleteTuple.SetSize(tupleSize)\n\t\tdeleteTuple.SetData(make([]byte, deleteTuple.Size()))\n\t\tcopy(deleteTuple.Data(), tp.Data()[tupleOffset:tupleOffset+deleteTuple.Size()])\n\t\tdeleteTuple.SetRID(rid)\n\n\t\tlogRecord := recovery.NewLogRecordInsertDelete(txn.GetTransactionID(), txn.GetPrevLSN(), recovery.APPLYDELETE, *rid, deleteTuple)\n\t\tlsn := logManager.AppendLogRecord(logRecord)\n\t\ttp.SetLSN(lsn)\n\t\ttxn.SetPrevLSN(lsn)\n\t}\n\n', ['C02-R8 [TablePage.ApplyDelete:copy-out-before-page-write]'])
+m('lockexclusive-over-one-foreign-reader', ['C05', 'C16'], LK, """			if !(arr == nil || len(arr) == 0 || (len(arr) == 1 && arr[0] == txn.GetTransactionID())) {""", """			if !(arr == nil || len(arr) == 0 || len(arr) == 1) {""", ['C16-R4 [LockExclusive:no-exclusive-grant-over-one-foreign-reader]'])
+m('tmp-page-entry-may-end-in-header', ['C11'], 'lib/materialization/tmp_tuple_page.go', """	if freeOffset < needSize+uint32(offsetFreeSpace+4) {""", """	if freeOffset < needSize+offsetFreeSpace {""", ['C11-R8 [TmpTuplePage.Insert:new-pointer-stays-behind-the-header#1]'])
+m('bare-key-join-kept-with-two-conditions', ['C11'], OPT, """			if candidates[ii].GetType() == plans.NestedLoopJoin || relatedExpCnt > 1 {""", """			if candidates[ii].GetType() == plans.NestedLoopJoin || relatedExpCnt > 2 {""", ['C11-R9 [findBestJoinInner:bare-join-not-a-candidate[E=1,R=2]'])
+m('bare-nested-loop-join-kept', ['C11'], OPT, """			if candidates[ii].GetType() == plans.NestedLoopJoin || relatedExpCnt > 1 {""", """			if relatedExpCnt > 1 {""", ['C11-R9 [findBestJoinInner:bare-join-not-a-candidate[E=0,R=1]'])
+m('abort-relocated-update-on-old-page', ['C03', 'C12', 'C02'], TM, """				pageID := item.rid2.GetPageID()
+				tpage := CastPageAsTablePage(table.bpm.FetchPage(pageID))
+				tpage.WLatch()
+				tpage.ApplyDelete(item.rid2, txn, transactionManager.logManager)""", """				pageID := item.rid1.GetPageID()
+				tpage := CastPageAsTablePage(table.bpm.FetchPage(pageID))
+				tpage.WLatch()
+				tpage.ApplyDelete(item.rid2, txn, transactionManager.logManager)""", ['C03-R8 [(*storage/access.TransactionManager).Abort:page-of-the-rid:ApplyDelete]'])
+m('redo-empty-log-reports-invalid-lsn', ['C20', 'C01'], LR, """	greatestLSN := 0
+""", """	greatestLSN := int(common.InvalidLSN)
+""", ['C20-R5 [Redo:empty-log-yields-the-tested-value]'])
+m('undo-reads-records-into-one-page', ['C02', 'C01', 'C20'], LR, """			logRecov.diskManager.ReadLog(logRecov.logBuffer, int32(fileOffset), &readBytes)
+			logRecov.DeserializeLogRecord(logRecov.logBuffer[:readBytes], &logRecord)""", """			logRecov.diskManager.ReadLog(logRecov.logBuffer[:common.PageSize], int32(fileOffset), &readBytes)
+			logRecov.DeserializeLogRecord(logRecov.logBuffer[:readBytes], &logRecord)""", ['C02-R7 [(*recovery/log_recovery.LogRecovery).Undo:ReadLog-gets-the-whole-buffer#1]'])
 # drop the one that needs a helper that does not exist
 M = [x for x in M if x['id'] != 'insert-executor-unlocks-early']
 os.chdir(os.path.dirname(os.path.abspath(__file__)) + '/..')
